@@ -38,7 +38,7 @@ func TestMinimize(t *testing.T) {
 		chain := &backupChain{}
 		defer chain.close()
 		_, err := Run(q, func(in *Interp) {
-			extSetup(map[string]func(*Interp, Op) error{"backup": backupOpFor(chain), "stream": streamOp})(in)
+			extSetup(map[string]func(*Interp, Op) error{"backup": backupOpFor(chain), "stream": streamOp, "dropprefix": dropPrefixOp, "dropall": dropAllOp})(in)
 			in.Strict = strict
 			if os.Getenv("VERIF_MIN_STRICT") == "stale" {
 				in.Strict, in.StrictStale = false, true
